@@ -344,7 +344,15 @@ func vc13Mutate(r *vlib.Rand, s string) (string, string) {
 
 func TestVerifC13RemoteIP(t *testing.T) {
 	res := vlib.NewResult("C13", "inpkg-proxylib-c13", "remoteIPFromSDP on PRNG descriptions (0-3 media sections, candidates of all types and c= lines with public/local/IPv4-mapped/odd addresses, CRLF and LF), line-level mutations, enumerated line types x odd fields x positions, c= lines with hostile address tokens, all truncation points, arbitrary strings; non-trivial = input the SDP parser accepts that has at least one candidate or c= line, distinct by input hash")
-	defer res.Finish()
+	defer func() {
+		// a panic outside a guarded call (unguarded code under test, or a harness
+		// bug) must never end as a complete, clean result
+		if e := recover(); e != nil {
+			st := vlib.ShortStack()
+			res.Violate("panic:outside-guard:"+vc13PanicSite(st), fmt.Sprintf("panic outside a guarded call: %v\n%s", e, st), map[string]interface{}{"case": "harness"})
+		}
+		res.Finish()
+	}()
 	oldOut := log.Writer()
 	log.SetOutput(ioutil.Discard)
 	defer log.SetOutput(oldOut)
@@ -358,7 +366,11 @@ func TestVerifC13RemoteIP(t *testing.T) {
 		{"v=0\r\no=- 1 2 IN IP4 0.0.0.0\r\ns=-\r\nt=0 0\r\nm=application 56688 DTLS/SCTP 5000\r\nc=IN IP4 1.2.3.4\r\n", "1.2.3.4"},
 		{"v=0\no=- 1 2 IN IP4 0.0.0.0\ns=-\nt=0 0\nm=application 56688 DTLS/SCTP 5000\nc=IN IP4 192.168.0.1\na=candidate:1 1 udp 1 192.168.0.1 5 typ host\na=candidate:2 1 udp 1 5.6.7.8 5 typ srflx raddr 192.168.0.1 rport 5\n", "5.6.7.8"},
 	} {
-		ip := remoteIPFromSDP(ex.in)
+		var ip net.IP
+		in := ex.in
+		if vc13Guard(res, "panic:remoteIPFromSDP", vc13Rec{Case: fmt.Sprintf("example/%d", i), Input: vc13Bounded(in), Len: len(in), Desc: "well-formed example"}, func() { ip = remoteIPFromSDP(in) }) {
+			continue
+		}
 		res.Require(ip != nil && ip.String() == ex.want, fmt.Sprintf("wiring example %d returns %s", i, ex.want))
 	}
 
